@@ -1,6 +1,8 @@
 package sut
 
 import (
+	"fmt"
+
 	"github.com/intuitivelabs/sipsp"
 )
 
@@ -224,6 +226,10 @@ func SnapMsg(r *Rec, m *sipsp.PSIPMsg, buf []byte) {
 		// RawMsg must be a view of the caller's buffer ending at len(Buf)
 		r.Bool("RawMsg aliases buf", aliasEnd(m.RawMsg, m.Buf))
 		r.Bool("Buf aliases buf", aliasStart(m.Buf, buf))
+	}
+	// once this parse has published Buf / RawMsg, every reported field points into Buf
+	if (m.Parsed() || len(m.RawMsg) > 0) && r.MaxEnd > len(m.Buf) && r.OOB == "" {
+		r.OOB = fmt.Sprintf("a reported field ends at %d but the published msg.Buf has only %d bytes", r.MaxEnd, len(m.Buf))
 	}
 }
 
